@@ -27,11 +27,21 @@ package main
 //	overlap-connection-unregistered  the new stream is no longer registered once the old one terminated
 
 import (
+	"context"
 	"sort"
 	"strings"
 	"time"
 
+	corev1 "k8s.io/api/core/v1"
+	metav1 "k8s.io/apimachinery/pkg/apis/meta/v1"
+
+	networking "istio.io/api/networking/v1alpha3"
+	typev1beta1 "istio.io/api/type/v1beta1"
+	"istio.io/istio/pilot/pkg/features"
+	"istio.io/istio/pilot/pkg/model"
 	"istio.io/istio/pilot/pkg/xds"
+	"istio.io/istio/pkg/config"
+	"istio.io/istio/pkg/config/schema/gvk"
 	"verifharness/internal/wire"
 )
 
@@ -54,6 +64,10 @@ type CutSpec struct {
 	Nds       bool     `json:"nds,omitempty"`        // the proxies capture DNS: they also subscribe to the name table (NDS)
 	NackFirst []string `json:"nack_first,omitempty"` // types whose first request on the new stream is the NACK the proxy could not send before the old stream broke (error_detail set)
 	Wide      bool     `json:"wide,omitempty"`       // history drawn from the wide grammar (PeerAuthentication, EnvoyFilter with ECDS)
+	// round 4
+	Relabel  bool `json:"relabel,omitempty"`     // overlap: the proxies are kube pods; their labels change (a Sidecar selects the new labels) while the old and the new stream are both registered
+	StopBy   bool `json:"server_stop,omitempty"` // the cut is made by the SERVER: Connection.Stop() on the registered connection (force-disconnect), the proxy notices the closed stream
+	Shutdown bool `json:"shutdown,omitempty"`    // second server: the old instance is shut down with the streams still open (restart), not left running
 	// zt flavour
 	StaleVersions bool `json:"stale_versions,omitempty"` // present wrong versions for some retained resources
 }
@@ -94,14 +108,45 @@ func genC05(r *wire.Rng) *History {
 	h := &History{Stream: "c05", Flavor: "envoy", Debounce: wire.Pick(r, []int{0, 5, 20}), Explicit: r.Chance(1, 2)}
 	clock := 0
 	wide := r.Chance(1, 3)
-	if wide {
+	router := r.Chance(1, 6)
+	if wide || router {
 		wideGrammar = true
 		defer func() { wideGrammar = false }()
 	}
-	h.Base = genBase(r, &clock)
 	w := newWorld(false)
-	for _, o := range h.Base {
-		w.note(o)
+	// the op generators of the flavour
+	genOp, genAwayOp := genOp, genAwayOp
+	if router {
+		// an ingress gateway (node type router, PILOT_FILTER_GATEWAY_CLUSTER_CONFIG): base and grammar of stream c03's
+		// router flavour - Gateway / bound VirtualService changes drive the gateway arms of CDS / LDS / RDS
+		src := genC03Router(r)
+		h.Flavor, h.Base, wide = "router", src.Base, true
+		for _, o := range h.Base {
+			w.note(o)
+			if o.T > clock {
+				clock = o.T
+			}
+		}
+		genOp = genRouterOp
+		genAwayOp = func(r *wire.Rng, w *world, clock *int) Op {
+			if r.Chance(1, 3) {
+				var cands []Op
+				for _, k := range sortedKeys(w.Cfg) {
+					if c := w.Cfg[k]; c.K == "se" || c.K == "dr" || c.K == "vs" || c.K == "gw" {
+						cands = append(cands, Op{K: "del", Kind: c.K, N: c.N, Ns: c.Ns})
+					}
+				}
+				if len(cands) > 0 {
+					return wire.Pick(r, cands)
+				}
+			}
+			return genRouterOp(r, w, clock)
+		}
+	} else {
+		h.Base = genBase(r, &clock)
+		for _, o := range h.Base {
+			w.note(o)
+		}
 	}
 	c := &CutSpec{Mode: wire.Pick(r, []string{"quiet", "after-change", "at-response", "at-response", "initial"})}
 	if c.Mode != "initial" {
@@ -159,6 +204,18 @@ func genC05(r *wire.Rng) *History {
 		c.AgainK = 1 + r.Intn(4)
 		c.AgainFate = wire.Pick(r, []string{"applied", "lost", "failed-send"})
 	}
+	if c.Overlap && !router && r.Chance(1, 3) {
+		c.Relabel = true
+	}
+	if (c.Mode == "quiet" || c.Mode == "after-change") && !c.Overlap && r.Chance(1, 3) {
+		c.StopBy = true
+	}
+	if c.Second && r.Chance(1, 2) {
+		c.Shutdown = true
+	}
+	if c.Second && !c.Shutdown && len(c.Away) > 1 && r.Chance(1, 3) {
+		c.Hot = true // the LAST away change reaches the second instance right before the proxies do
+	}
 	if r.Chance(1, 4) {
 		c.NackFirst = wire.Subset(r, envoyTypes, 1, 2)
 		if len(c.NackFirst) == 0 {
@@ -198,6 +255,102 @@ func pushSlotsLeaked(st *site) (bool, map[string]any) {
 	return true, map[string]any{"semaphore_tokens": tokens, "processing": processing, "processing_for_closed_connections": gone,
 		"expected": "one token (the sender loop), nothing in processing for a connection that is gone"}
 }
+
+// ---- round 4: the proxies as kube pods whose labels change (ProxyUpdate)
+
+const movedLabel = "moved"
+
+func clientPod(name, ip, app string) *corev1.Pod {
+	return &corev1.Pod{
+		ObjectMeta: metav1.ObjectMeta{Name: name, Namespace: proxyNs, Labels: map[string]string{"app": app}},
+		Spec:       corev1.PodSpec{ServiceAccountName: "client", NodeName: "node1"},
+		Status: corev1.PodStatus{PodIP: ip, PodIPs: []corev1.PodIP{{IP: ip}}, Phase: corev1.PodRunning,
+			Conditions: []corev1.PodCondition{{Type: corev1.PodReady, Status: corev1.ConditionTrue, LastTransitionTime: metav1.NewTime(epoch)}}},
+	}
+}
+
+func (e *envoy) setIP(ip string) {
+	p := strings.SplitN(e.nodeID, "~", 4)
+	e.nodeID = p[0] + "~" + ip + "~" + p[2] + "~" + p[3]
+}
+
+func (e *envoy) podName() string {
+	return strings.SplitN(strings.SplitN(e.nodeID, "~", 4)[2], ".", 2)[0]
+}
+func (e *envoy) podIP() string { return strings.SplitN(e.nodeID, "~", 4)[1] }
+
+// podLabelsKnown: the registry answers the proxy's label lookup with the given app label.
+func podLabelsKnown(st *site, e *envoy, app string) bool {
+	p := &model.Proxy{ID: e.podName() + "." + proxyNs, IPAddresses: []string{e.podIP()}, Metadata: &model.NodeMetadata{Namespace: proxyNs, ClusterID: "Kubernetes"},
+		Type: model.SidecarProxy}
+	l := st.s.Env().GetProxyWorkloadLabels(p)
+	return l != nil && l["app"] == app
+}
+
+// setupRelabel makes the two proxies pods of the kube registry (label app=client) and adds a Sidecar that selects
+// app=moved and imports nothing: once a proxy's pod carries that label its outbound configuration shrinks.
+func setupRelabel(st *site, es ...*envoy) error {
+	pods := st.s.KubeClient().Kube().CoreV1().Pods(proxyNs)
+	for _, e := range es {
+		p := clientPod(e.podName(), e.podIP(), "client")
+		created, err := pods.Create(context.Background(), p, metav1.CreateOptions{})
+		if err != nil {
+			return err
+		}
+		created.Status = p.Status
+		if _, err := pods.UpdateStatus(context.Background(), created, metav1.UpdateOptions{}); err != nil {
+			return err
+		}
+	}
+	_, err := st.s.Store().Create(config.Config{
+		Meta: config.Meta{GroupVersionKind: gvk.Sidecar, Name: "selected-by-label", Namespace: proxyNs, CreationTimestamp: epoch},
+		Spec: &networking.Sidecar{WorkloadSelector: &networking.WorkloadSelector{Labels: map[string]string{"app": movedLabel}},
+			Egress: []*networking.IstioEgressListener{{Hosts: []string{"~/*"}}}},
+	})
+	if err != nil {
+		return err
+	}
+	deadline := time.Now().Add(settleTime)
+	for time.Now().Before(deadline) {
+		ok := true
+		for _, e := range es {
+			ok = ok && podLabelsKnown(st, e, "client")
+		}
+		if ok {
+			return nil
+		}
+		time.Sleep(pollEvery)
+	}
+	return context.DeadlineExceeded
+}
+
+func relabelPods(st *site, app string, es ...*envoy) error {
+	pods := st.s.KubeClient().Kube().CoreV1().Pods(proxyNs)
+	for _, e := range es {
+		p, err := pods.Get(context.Background(), e.podName(), metav1.GetOptions{})
+		if err != nil {
+			return err
+		}
+		p.Labels = map[string]string{"app": app}
+		if _, err := pods.Update(context.Background(), p, metav1.UpdateOptions{}); err != nil {
+			return err
+		}
+	}
+	deadline := time.Now().Add(settleTime)
+	for time.Now().Before(deadline) {
+		ok := true
+		for _, e := range es {
+			ok = ok && podLabelsKnown(st, e, app)
+		}
+		if ok {
+			return nil
+		}
+		time.Sleep(pollEvery)
+	}
+	return context.DeadlineExceeded
+}
+
+var _ = typev1beta1.WorkloadSelector{}
 
 // registeredIDs: the connection IDs the server has registered (adsClients) for this client's proxy.
 func registeredIDs(st *site, e *envoy) []string {
@@ -245,6 +398,12 @@ func runC05(h *History, stt *stats) result {
 		return result{Clause: "harness-bad-history", Detail: map[string]any{"err": "no cut spec"}}
 	}
 	w := h.baseWorld()
+	if h.Flavor == "router" {
+		old := features.FilterGatewayClusterConfig
+		features.FilterGatewayClusterConfig = true
+		defer func() { features.FilterGatewayClusterConfig = old }()
+		stt.Extra["router-flavour"]++
+	}
 	deb := time.Duration(h.Debounce) * time.Millisecond
 	// several ops applied back to back are only deterministic when their events merge into ONE push (otherwise a
 	// push built for the first event may already contain the state of the second one: C03's known class
@@ -261,12 +420,26 @@ func runC05(h *History, stt *stats) result {
 	sotw := newEnvoy("sotw", false, "app-sotw")
 	delta := newEnvoy("delta", true, "app-delta")
 	delta.explicit = h.Explicit
-	sotw.nds, delta.nds = c.Nds, c.Nds
+	if h.Flavor == "router" {
+		asRouter(sotw, "gw-sotw")
+		asRouter(delta, "gw-delta")
+	}
+	sotw.nds, delta.nds = c.Nds && h.Flavor != "router", c.Nds && h.Flavor != "router"
+	relabel := c.Relabel && c.Overlap && !c.Second && h.Flavor != "router"
+	if relabel {
+		delta.setIP("10.30.0.10") // one pod, one address
+		if err := setupRelabel(st, sotw, delta); err != nil {
+			return result{Clause: "harness-apply-error", Detail: map[string]any{"op": "pods of the proxies", "err": err.Error()}}
+		}
+		if !st.quiesce() {
+			return timeoutResult("pods of the proxies", nil)
+		}
+	}
 	types := append([]string{}, envoyTypes...)
 	if c.Wide {
 		types = append(types, "ECDS")
 	}
-	if c.Nds {
+	if c.Nds && h.Flavor != "router" {
 		types = append(types, "NDS")
 	}
 	both := []*envoy{sotw, delta}
@@ -361,9 +534,40 @@ func runC05(h *History, stt *stats) result {
 			stt.Cuts["between-CDS-and-EDS"]++
 		}
 		e.mu.Unlock()
-		if c.Overlap && !c.Second && !e.isDead() {
+		switch {
+		case c.Overlap && !c.Second && !e.isDead():
 			zombies[e.label] = e.abandon()
-		} else {
+		case c.Shutdown && c.Second && !e.isDead():
+			// the stream stays open until the instance itself goes away (below)
+		case c.StopBy && !e.isDead():
+			// the SERVER ends the stream (Connection.Stop: what a forced disconnect / max connection age does); the
+			// proxy notices the closed stream and will reconnect
+			stt.Cuts["server-side-stop"]++
+			e.mu.Lock()
+			live := e.st
+			e.mu.Unlock()
+			want := strings.SplitN(e.nodeID, "~", 4)[2]
+			for _, con := range st.s.Discovery.AllClients() {
+				if p := con.Proxy(); p != nil && p.ID == want {
+					con.Stop()
+				}
+			}
+			select {
+			case <-live.done:
+			case <-time.After(5 * time.Second):
+				return result{Clause: "server-stop-leaves-connection", Detail: map[string]any{"client": e.label, "what": "the stream handler did not return after Connection.Stop()", "log": e.streamLog()}}
+			}
+			// (gRPC cancels the stream context when the handler returns; here the client does it) - the receive
+			// goroutine then unregisters the connection
+			e.disconnect()
+			deadline := time.Now().Add(3 * time.Second)
+			for len(registeredIDs(st, e)) != 0 && time.Now().Before(deadline) {
+				time.Sleep(pollEvery)
+			}
+			if ids := registeredIDs(st, e); len(ids) != 0 {
+				return result{Clause: "server-stop-leaves-connection", Detail: map[string]any{"client": e.label, "registered": ids}}
+			}
+		default:
 			e.disconnect()
 		}
 	}
@@ -384,7 +588,25 @@ func runC05(h *History, stt *stats) result {
 
 	// --- phase 2: changes while away
 	hot := c.Hot && !c.Second && len(c.Away) > 0
-	if hot {
+	shutdown := c.Shutdown && c.Second
+	var heldBack []Op // second server + hot: the last away change reaches the NEW instance right before the proxies do
+	away := c.Away
+	if c.Hot && c.Second && !shutdown && len(away) > 1 {
+		heldBack, away = away[len(away)-1:], away[:len(away)-1]
+	}
+	if shutdown {
+		// a restart: the old instance is shut down with the streams still open (and, in after-change mode, with the
+		// push of the trigger on its way); the changes made while the proxies are away never reach it
+		stt.Reconnects["old-instance-shut-down-with-live-streams"]++
+		st.close()
+		for _, e := range both {
+			e.disconnect()
+		}
+		for _, o := range away {
+			w.note(o)
+			stt.Ops[o.K]++
+		}
+	} else if hot {
 		// the proxies come back while the server is still digesting the changes (debounce, push context
 		// initialisation, push round): their registration races with the publication
 		stt.Reconnects["into-non-quiescent-server"]++
@@ -395,7 +617,7 @@ func runC05(h *History, stt *stats) result {
 			stt.Ops[o.K]++
 		}
 	} else {
-		for _, o := range c.Away {
+		for _, o := range away {
 			if r := applyStep(st, w, []Op{o}, stt); r != nil {
 				return *r
 			}
@@ -421,6 +643,16 @@ func runC05(h *History, stt *stats) result {
 			return timeoutResult("second server", nil)
 		}
 		stt.Reconnects["second-server"]++
+		if len(heldBack) > 0 {
+			stt.Reconnects["into-non-quiescent-second-server"]++
+			for _, o := range heldBack {
+				if err := target.apply(w, o); err != nil {
+					return result{Clause: "harness-apply-error", Detail: map[string]any{"op": o, "err": err.Error()}}
+				}
+				stt.Ops[o.K]++
+			}
+			hot = true // the EDS-after-CDS clause is about the first exchange only (see below)
+		}
 	} else {
 		stt.Reconnects["same-server"]++
 	}
@@ -490,8 +722,17 @@ func runC05(h *History, stt *stats) result {
 	}
 	fs := newEnvoy("fresh-sotw", false, "app-fresh-sotw")
 	fd := newEnvoy("fresh-delta", true, "app-fresh-delta")
+	if h.Flavor == "router" {
+		asRouter(fs, "gw-fresh-sotw")
+		asRouter(fd, "gw-fresh-delta")
+	}
+	if relabel {
+		// the brand-new client is the SAME workload (its labels come from its pod)
+		fs, fd = newEnvoy("fresh-sotw", false, "app-sotw"), newEnvoy("fresh-delta", true, "app-delta")
+		fd.setIP("10.30.0.10")
+	}
 	fd.explicit = h.Explicit
-	fs.nds, fd.nds = c.Nds, c.Nds
+	fs.nds, fd.nds = sotw.nds, delta.nds
 	fresh := map[string]*envoy{"sotw": fs, "delta": fd}
 	if !target.quiesceLoose(sotw, delta) {
 		// a reconnected stream on which the server has not sent anything and is not even reading the requests
@@ -580,6 +821,19 @@ func runC05(h *History, stt *stats) result {
 			if ids := registeredIDs(target, e); len(ids) != 2 {
 				return result{Clause: "overlap-connection-id-reused", Detail: merge(map[string]any{"client": e.label, "registered": ids,
 					"expected": "two connections of the proxy (old stream not yet terminated, new stream)"}, info())}
+			}
+		}
+		if relabel && len(zombies) == 2 {
+			// the pods' labels change while two connections of each proxy are registered: the ProxyUpdate push (the only
+			// thing that makes a connected proxy re-read its workload labels) has to reach the LIVE stream
+			stt.Reconnects["labels-change-during-overlap"]++
+			in := target.s.Discovery.InboundUpdates.Load()
+			if err := relabelPods(target, movedLabel, sotw, delta); err != nil {
+				return result{Clause: "harness-apply-error", Detail: map[string]any{"op": "relabel the proxies' pods", "err": err.Error()}}
+			}
+			target.awaitInbound(in, 2*time.Second)
+			if !target.quiesceLoose(sotw, delta) {
+				return timeoutResult("label change during the overlap", info())
 			}
 		}
 		// now the server notices the dead streams: removeCon(old) runs after addCon(new)
@@ -674,12 +928,14 @@ func runC05(h *History, stt *stats) result {
 		return result{Clause: clause, Detail: merge(map[string]any{"n": len(df), "diff": limitDiffs(df, 8), "a": "reconnected client",
 			"b": "brand-new client", "not_removed": notRemoved}, info())}
 	}
-	if leaked, d := pushSlotsLeaked(st); leaked {
-		return result{Clause: "push-slot-leaked-after-cut", Detail: merge(d, info())}
+	if !shutdown {
+		if leaked, d := pushSlotsLeaked(st); leaked {
+			return result{Clause: "push-slot-leaked-after-cut", Detail: merge(d, info())}
+		}
 	}
 	hd := delta.snapshot()
 	return result{OK: true, Summary: "c05 envoy cut=" + c.Mode + " k=" + itoa(c.K) + " prefix=" + itoa(len(h.Steps)) + " away=" + itoa(len(c.Away)) +
 		" second=" + wire.B(c.Second) + " overlap=" + wire.B(len(zombies) > 0) + " after=" + itoa(len(c.After)) + " hot=" + wire.B(hot) + " again=" + itoa(c.AgainK) + " probe=" + wire.B(c.Probe) +
-		" nds=" + wire.B(c.Nds) + " wide=" + wire.B(c.Wide) + " nack=" + itoa(len(h.Cut.NackFirst)) + " first=" + c.Order[0] + " retained=" + itoa(countHeld(retained["delta"], types)) + " gone=" + itoa(gone) +
+		" nds=" + wire.B(c.Nds) + " wide=" + wire.B(c.Wide) + " relabel=" + wire.B(relabel) + " srvstop=" + wire.B(c.StopBy && !c.Overlap) + " shutdown=" + wire.B(shutdown) + " nack=" + itoa(len(h.Cut.NackFirst)) + " first=" + c.Order[0] + " retained=" + itoa(countHeld(retained["delta"], types)) + " gone=" + itoa(gone) +
 		" held=" + itoa(len(hd["CDS"])) + "/" + itoa(len(hd["EDS"])) + "/" + itoa(len(hd["LDS"])) + "/" + itoa(len(hd["RDS"]))}
 }
